@@ -575,6 +575,7 @@ def m_copy_within(c):
             else:
                 ok = d.hi + (e.hi - s.lo) <= ln.lo
     c.oblige("PRECOND", "copy_within: src range and dest within bounds", ok)
+    c.I.emit("copy_within", call=c, arr_loc=loc, range=r, dest=d, dest_lin=dl)
     if loc is not None:
         a = c.I.read_loc(c.st, loc)
         if isinstance(a, Arr):
